@@ -397,7 +397,183 @@ def gen_hom(repo, out):
 
     header = (f"(* GENERATED by tools/gen/hom.py from src/spdc/hom.rs — do not edit; regenerated on every check run. *)\n"
               "From Coq Require Import Reals List.\nFrom SpdVerif Require Import Model.FinSum Model.Hom Model.Hom2.\nLocal Open Scope R_scope.\n\n")
-    out.write("HomSrc.v", header + "\n".join(body))
+    out.write("HomSrc.v", header + "\n".join(body) + "\n" + gen_wrappers(repo, out))
+
+
+# ---------------------------------------------------------------------------------------------------------- wrappers
+def jsa_args(c, clo, recv):
+    """closure |(ws, wi)| <recv>.jsa(<a>, <b>) -> (a, b) as names among ws, wi"""
+    if not (clo[0] == "closure" and clo[1] == [("ptuple", [("pbind", "ws", False), ("pbind", "wi", False)])]):
+        c.fail("closure over the grid is not |(ws, wi)| …")
+    e = clo[2]
+    if e[0] == "block" and not e[1]:
+        e = e[2]
+    if not (e[0] == "mcall" and e[1] == ("path", [recv]) and e[2] == "jsa" and len(e[3]) == 2
+            and all(a[0] == "path" and a[1][0] in ("ws", "wi") for a in e[3])):
+        c.fail(f"closure body is not {recv}.jsa(<ws|wi>, <ws|wi>)")
+    return e[3][0][1][0], e[3][1][1][0]
+
+
+def tab(a, b):
+    return f"(fun k => let ws := grid_ws ROps g k in let wi := grid_wi ROps g k in J {a} {b})"
+
+
+def swapped_stmt(c, s, recv, par):
+    it = "into_par_iter" if par else "into_iter"
+    ok = (s[0] == "let" and s[1] == ("pbind", "jsa_values_swapped", False) and s[3][0] == "mcall" and s[3][2] == "collect"
+          and s[3][1][0] == "mcall" and s[3][1][2] == "map"
+          and s[3][1][1] == ("mcall", ("mcall", ("path", ["ranges"]), "as_steps", []), it, []) and len(s[3][1][3]) == 1)
+    if not ok:
+        c.fail(f"`jsa_values_swapped` is not ranges.as_steps().{it}().map(…).collect()")
+    return jsa_args(c, s[3][1][3][0], recv)
+
+
+def array_args(c, args):
+    out = []
+    for a in args:
+        a = strip(a)
+        if a[0] != "path" or a[1][0] not in ("jsa_values", "jsa_values_swapped"):
+            c.fail("array arguments of the inner call are not jsa_values / jsa_values_swapped")
+        out.append(a[1][0])
+    return out
+
+
+def gen_wrappers(repo, out):
+    body = []
+    # JointSpectrum::jsa_range and ::schmidt_number
+    path = os.path.join(repo, "src/jsa/joint_spectrum.rs")
+    items = parse_file(path)
+    its = [i for i in items if i.kind == "fn" and i.name == "jsa_range" and "JointSpectrum" in i.container]
+    if len(its) != 1 or its[0].error:
+        raise Untranslatable(path, 0, "JointSpectrum::jsa_range not found")
+    c = Ctx(path, its[0])
+    out.span("jsa::JointSpectrum::jsa_range", its[0])
+    t = its[0].body[2]
+    ok = (not its[0].body[1] and t[0] == "mcall" and t[2] == "collect" and t[1][0] == "mcall" and t[1][2] == "map"
+          and t[1][1] == ("mcall", ("path", ["range"]), "into_signal_idler_par_iterator", []) and len(t[1][3]) == 1)
+    if not ok:
+        c.fail("jsa_range is not range.into_signal_idler_par_iterator().map(…).collect()")
+    a, b = jsa_args(c, t[1][3][0], "self")
+    body.append("(* JointSpectrum::jsa_range *)\n"
+                f"Definition src_jsa_range (J : R -> R -> cx R) (g : grid R) : nat -> cx R := {tab(a, b)}.\n")
+
+    # SPDC::hom_rate_series, SPDC::hom_visibility, SPDC::hom_two_source_*
+    path = os.path.join(repo, "src/spdc/spdc_obj.rs")
+    items = parse_file(path)
+
+    def method(name):
+        its = [i for i in items if i.kind == "fn" and i.name == name and "SPDC" in i.container]
+        if len(its) != 1 or its[0].error:
+            raise Untranslatable(path, 0, f"SPDC::{name} not found")
+        out.span(f"spdc::SPDC::{name}", its[0])
+        return its[0]
+
+    it = method("hom_rate_series")
+    c = Ctx(path, it)
+    st = it.body[1]
+    ok = (len(st) == 4 and st[0] == ("let", ("pbind", "sp", False), None, ("mcall", ("path", ["self"]), "joint_spectrum", [("path", ["integrator"])]))
+          and st[1] == ("let", ("pbind", "ranges", False), None, ("mcall", ("path", ["ranges"]), "into", []))
+          and st[2] == ("let", ("pbind", "jsa_values", False), None, ("mcall", ("path", ["sp"]), "jsa_range", [("path", ["ranges"])])))
+    if not ok:
+        c.fail("SPDC::hom_rate_series: the first three statements changed")
+    a, b = swapped_stmt(c, st[3], "sp", True)
+    t = it.body[2]
+    if not (t[0] == "call" and t[1] == ("path", ["super", "hom_rate_series"]) and len(t[2]) == 4 and t[2][0] == ("path", ["ranges"]) and t[2][3] == ("path", ["time_delays"])):
+        c.fail("SPDC::hom_rate_series: tail is not super::hom_rate_series(ranges, …, …, time_delays)")
+    n1, n2 = array_args(c, t[2][1:3])
+    body.append("(* SPDC::hom_rate_series *)\n"
+                "Definition src_setup_hom_rate_series (J : R -> R -> cx R) (g : grid R) (time_delays : list R) : list R :=\n"
+                "  let jsa_values := src_jsa_range J g in\n"
+                f"  let jsa_values_swapped := {tab(a, b)} in\n"
+                f"  src_hom_rate_series g {n1} {n2} time_delays.\n")
+
+    it = method("hom_visibility")
+    c = Ctx(path, it)
+    if it.body != ("block", [], ("call", ("path", ["super", "hom_visibility"]), [("path", ["self"]), ("mcall", ("path", ["ranges"]), "into", []), ("path", ["integrator"])])):
+        c.fail("SPDC::hom_visibility is not super::hom_visibility(self, ranges.into(), integrator)")
+
+    it = method("hom_two_source_rate_series")
+    c = Ctx(path, it)
+    want = ("block", [("let", ("pbind", "sp", False), None, ("mcall", ("path", ["self"]), "joint_spectrum", [("path", ["integrator"])]))],
+            ("call", ("path", ["super", "hom_two_source_rate_series"]),
+             [("unary", "&", ("path", ["sp"])), ("unary", "&", ("path", ["sp"])), ("path", ["ranges"]), ("path", ["ranges"]), ("path", ["time_delays"])]))
+    if it.body != want:
+        c.fail("SPDC::hom_two_source_rate_series is not super::hom_two_source_rate_series(&sp, &sp, ranges, ranges, time_delays)")
+    it = method("hom_two_source_visibilities")
+    c = Ctx(path, it)
+    want = ("block", [], ("call", ("path", ["super", "hom_two_source_visibilities"]),
+                          [("path", ["self"]), ("path", ["self"]), ("path", ["ranges"]), ("path", ["ranges"]), ("path", ["integrator"])]))
+    if it.body != want:
+        c.fail("SPDC::hom_two_source_visibilities is not super::hom_two_source_visibilities(self, self, ranges, ranges, integrator)")
+    body.append("(* SPDC::hom_two_source_rate_series: the setup against itself on one range *)\n"
+                "Definition src_setup_ts_rates_self (J : R -> R -> cx R) (ls li : R * R) (n : nat) (delta_t : R) : R * R * R :=\n"
+                "  src_ts_rates n (src_ts_tabulate J J ls li ls li n) (axes_grid ls li n) (axes_grid ls li n) delta_t.\n")
+
+    # hom.rs: hom_visibility and the identical-source branch of hom_two_source_visibilities
+    path = os.path.join(repo, "src/spdc/hom.rs")
+    items = parse_file(path)
+    it = find_fn(items, "hom_visibility", path)
+    c = Ctx(path, it)
+    out.span("spdc::hom::hom_visibility", it)
+    st = it.body[1]
+    ok = (len(st) == 6 and st[0] == ("let", ("pbind", "sp", False), None, ("mcall", ("path", ["spdc"]), "joint_spectrum", [("path", ["integrator"])]))
+          and st[1] == ("let", ("pbind", "ranges", False), None, ("mcall", ("path", ["ranges"]), "into", []))
+          and st[2] == ("let", ("pbind", "jsa_values", False), None, ("mcall", ("path", ["sp"]), "jsa_range", [("path", ["ranges"])]))
+          and st[4] == ("let", ("pbind", "delta_t", False), None, ("call", ("path", ["hom_time_delay"]), [("path", ["spdc"])])))
+    if not ok:
+        c.fail("hom_visibility: statements changed")
+    a, b = swapped_stmt(c, st[3], "sp", False)
+    s = st[5]
+    if not (s[0] == "let" and s[1] == ("pbind", "min_rate", False) and s[3][0] == "call" and s[3][1] == ("path", ["hom_rate"]) and len(s[3][2]) == 5
+            and s[3][2][0] == ("path", ["ranges"]) and s[3][2][3] == ("path", ["delta_t"]) and s[3][2][4] == ("path", ["None"])):
+        c.fail("hom_visibility: min_rate is not hom_rate(ranges, …, …, delta_t, None)")
+    n1, n2 = array_args(c, s[3][2][1:3])
+    t = it.body[2]
+    if not (t[0] == "tuple" and len(t[1]) == 2 and t[1][0] == ("path", ["delta_t"])):
+        c.fail("hom_visibility: result is not (delta_t, …)")
+    vis = rexpr(c, t[1][1], {"min_rate": "min_rate"})
+    body.append("(* hom_visibility (delta_t = hom_time_delay(spdc) is an input) *)\n"
+                "Definition src_hom_visibility (J : R -> R -> cx R) (g : grid R) (delta_t : R) : R * R :=\n"
+                "  let jsa_values := src_jsa_range J g in\n"
+                f"  let jsa_values_swapped := {tab(a, b)} in\n"
+                f"  let min_rate := src_hom_rate g {n1} {n2} delta_t None in\n"
+                f"  (delta_t, {vis}).\n")
+
+    it = find_fn(items, "hom_two_source_visibilities", path)
+    c = Ctx(path, it)
+    out.span("spdc::hom::hom_two_source_visibilities", it)
+    t = it.body[2]
+    if not (t[0] == "if" and t[1] == ("bin", "==", ("path", ["spdc1"]), ("path", ["spdc2"]))):
+        c.fail("hom_two_source_visibilities: not `if spdc1 == spdc2 {…} else {…}`")
+    blk = t[2]
+    zero = ("bin", "*", ("num", "0.", None), ("path", ["S"]))
+    js = lambda x: ("unary", "&", ("mcall", ("path", [x]), "joint_spectrum", [("path", ["integrator"])]))
+    want_call = ("call", ("path", ["hom_two_source_rate_series"]),
+                 [js("spdc1"), js("spdc2"), ("path", ["region1"]), ("path", ["region2"]), ("call", ("path", ["Steps"]), [zero, zero, ("num", "1", None)])])
+    if not (len(blk[1]) == 1 and blk[1][0] == ("let", ("pbind", "min_rate", False), None, want_call)):
+        c.fail("hom_two_source_visibilities: identical branch does not call hom_two_source_rate_series(js1, js2, region1, region2, Steps(0, 0, 1))")
+    res = blk[2]
+    if not (res[0] == "struct" and res[1] == ["HomTwoSourceResult"] and [f for f, _ in res[2]] == ["ss", "ii", "si"]):
+        c.fail("hom_two_source_visibilities: result struct changed")
+    comps = []
+    for fname, e in res[2]:
+        if not (e[0] == "tuple" and len(e[1]) == 2 and e[1][0] == zero):
+            c.fail("hom_two_source_visibilities: result component is not (0 s, …)")
+        v = e[1][1]
+        # (0.5 - min_rate.<f>[0]) / 0.5
+        def sub(x):
+            x = strip(x)
+            if x[0] == "index" and x[1][0] == "field" and x[1][1] == ("path", ["min_rate"]) and x[2] == ("num", "0", None):
+                return ("path", ["rate_" + x[1][2]])
+            if x[0] == "bin":
+                return ("bin", x[1], sub(x[2]), sub(x[3]))
+            return x
+        comps.append(rexpr(c, sub(v), {"rate_ss": "rate_ss", "rate_ii": "rate_ii", "rate_si": "rate_si"}))
+    body.append("(* hom_two_source_visibilities, branch spdc1 == spdc2: one series call at delay 0, then the three visibilities *)\n"
+                "Definition src_ts_visibilities_identical (J : R -> R -> cx R) (ls li : R * R) (n : nat) : R * R * R :=\n"
+                "  let '(rate_ss, rate_ii, rate_si) := src_ts_rates n (src_ts_tabulate J J ls li ls li n) (axes_grid ls li n) (axes_grid ls li n) 0 in\n"
+                f"  ({comps[0]}, {comps[1]}, {comps[2]}).\n")
+    return "\n".join(body)
 
 
 GENS = {"hom": gen_hom}
